@@ -129,6 +129,19 @@ def gen(chk, impl=None):
         pf = bytes([b0, mant - 1]) + r.bytes(200)
         chk.add('rangeproof_info ' + pf.hex(), 'info_scale_overflow')
         chk.add('rangeproof_verify %s %s . %s' % (obj(H), pf.hex(), obj(H)), 'verify_scale_overflow')
+    # ---- forged scalar chosen as ZERO by the prover: the ring equation holds, the proof must still be rejected
+    for mant, dig in [(1, [0]), (1, [1]), (2, [0]), (2, [3]), (3, [1, 0]), (4, [2, 2])]:
+        for pos in range(4):
+            fa = {(ri, pos): 0 for ri in range(len(dig))}
+            pr = prove(r, r.choice(gens), mant, 0, r.choice([0, 3]), digits=dig, forged_at=fa)
+            if pr and any(x == 0 for x in pr.s):
+                chk.add(verify_line(pr, encode(pr)), 'adv_forged_s_zero')
+    # ---- a ring public key at infinity (digit commitment = digit*scale*H exactly, blinding 0): equation holds, must be rejected
+    for mant, ring in [(1, 0), (2, 0), (3, 0), (3, 1), (4, 0), (4, 1)]:
+        dig = [r.below(rs) for rs in layout(mant)]
+        if ring < len(dig) - 1 and dig[ring] == 0: dig[ring] = 1      # a transmitted commitment cannot itself be infinity
+        pr = prove(r, r.choice(gens), mant, 0, r.choice([0, 3]), digits=dig, sec_at={ring: 0})
+        if pr: chk.add(verify_line(pr, encode(pr)), 'adv_ring_pubkey_infinity')
     # ---- the last public key is the point at infinity (commit = min*H + sum of digit commitments)
     for mant in (0, 1, 2):
         pr = prove(r, H, mant, 0, 7)
